@@ -41,7 +41,8 @@ func temporalToken(v system.Any) (string, bool) {
 		return "Da:" + hexs(p.l) + ":" + csv(int64(p.t.Year()), int64(p.t.Month()), int64(p.t.Day())) + ":" + utcTuple(p.t), true
 	case system.DateTime:
 		p := dateTimeParts(x)
-		return "DT:" + hexs(p.l) + ":" + utcTuple(p.t) + ":" + utcTuple(p.t), true
+		_, off := p.t.Zone()
+		return "DT:" + hexs(p.l) + ":" + utcTuple(p.t) + ":" + utcTuple(p.t) + ":" + fmt.Sprint(off), true
 	case system.Time:
 		p := timeParts(x)
 		return "T:" + hexs(p.l) + ":" + csv(int64(p.t.Hour()), int64(p.t.Minute()), int64(p.t.Second())*1000000000+int64(p.t.Nanosecond())) + ":" + utcTuple(p.t), true
